@@ -555,7 +555,7 @@ pub fn typed_error_class(u: &Universe, a: &RefState, b: &RefState, e: &TickPatch
                         parts.insert(format!("incident-{}", edge_change(a, b, *ew, *ee).0));
                     }
                 }
-                let mut s = node_change(a, b, w, n);
+                let mut s = node_change(a, b, w, n).replace("-with-incident-edges", "");
                 for p in parts {
                     s.push('+');
                     s.push_str(&p);
